@@ -72,6 +72,37 @@ def logCall (st : St) (m : String) (a : List String) (l : Log) : Log × Bool :=
     let (res, l') := runLog prog (oracle st r) 100000 (.invoke key) (fun _ => 0) l
     (l', outcome res == outcome (run prog (oracle st r) 100000 (.invoke key) (fun _ => 0)))
 
+/-- the instrumented run of one follower delivery (as MW.Drv.Api.baseStep runs it through MW.Model.ApiFollow) -/
+def logDelivery (st : St) (args : List String) (l : Log) : Option (Log × Bool) :=
+  let led := st.led
+  match args with
+  | ["notify", b] =>
+    match AMap.get led.node.known b with
+    | some blk =>
+      let O := MW.Model.ApiFollow.blockOracle (MW.Model.ApiFollow.mkBPlan (MW.Drv.Led.ctx led) led.store led.vol blk)
+      let s := Stmt.invoke Fn.processConnectedBlock
+      let (res, l') := runLog prog O MW.Model.ApiFollow.folFuel s (fun _ => 0) l
+      some (l', MW.Model.ApiFollow.folClass res == MW.Model.ApiFollow.folClass (run prog O MW.Model.ApiFollow.folFuel s (fun _ => 0)))
+    | none => none
+  | ["recvtx", t] =>
+    match AMap.get led.txs t with
+    | some tx =>
+      let O := MW.Model.ApiFollow.recvOracle (MW.Drv.Led.ctx led) led.store led.vol tx
+      let (res, l') := runLog prog O MW.Model.ApiFollow.folFuel recvTxTail (fun _ => 0) l
+      some (l', MW.Model.ApiFollow.folClass res == MW.Model.ApiFollow.folClass (run prog O MW.Model.ApiFollow.folFuel recvTxTail (fun _ => 0)))
+    | none => none
+  | ["impstep", w] =>
+    let O := MW.Model.ApiFollow.importOracle led.node led.own w
+    let s := Stmt.invoke Fn.asyncImport
+    let (res, l') := runLog prog O MW.Model.ApiFollow.folFuel s (fun _ => 0) l
+    some (l', MW.Model.ApiFollow.folClass res == MW.Model.ApiFollow.folClass (run prog O MW.Model.ApiFollow.folFuel s (fun _ => 0)))
+  | ["rmrun", _] =>
+    let O := MW.Model.ApiFollow.removeOracle
+    let s := Stmt.invoke Fn.asyncRemove
+    let (res, l') := runLog prog O MW.Model.ApiFollow.folFuel s (fun _ => 0) l
+    some (l', MW.Model.ApiFollow.folClass res == MW.Model.ApiFollow.folClass (run prog O MW.Model.ApiFollow.folFuel s (fun _ => 0)))
+  | _ => none
+
 def classLetter : Option MW.Lemmas.ApiBacked.CClass → String
   | some .model => "a" | some .modelOpen => "a-" | some .goLang => "b" | some .external => "c" | some .internal => "d"
   | none => "?"
@@ -94,6 +125,9 @@ def main (args : List String) : IO Unit := do
   let mut nDis := 0
   let mut nSem := 0
   let mut histCalls := 0
+  let mut nDeliv := 0
+  let mut nDelivCounted := 0
+  let mut histDeliv := 0
   let mut i := 0
   let mergeLog := fun (t h : Log) => h.foldl (fun acc (e : String × Nat × Nat) =>
       match acc.find? (fun x => x.1 == e.1) with
@@ -103,8 +137,8 @@ def main (args : List String) : IO Unit := do
     let toks := (line.trimAscii.toString.splitOn " ").filter (· ≠ "")
     match toks with
     | ["reset"] =>
-      if histOk then total := mergeLog total hist; nCounted := nCounted + histCalls
-      st := init; hist := []; histOk := true; histCalls := 0
+      if histOk then total := mergeLog total hist; nCounted := nCounted + histCalls; nDelivCounted := nDelivCounted + histDeliv
+      st := init; hist := []; histOk := true; histCalls := 0; histDeliv := 0
     | "api" :: rest =>
       -- the request the driver is about to run (same case analysis as MW.Drv.Api.step)
       let (pre, call) : St × Option (String × List String) := match rest with
@@ -117,7 +151,12 @@ def main (args : List String) : IO Unit := do
         let (h', same) := logCall pre m a hist
         hist := h'; nCalls := nCalls + 1; histCalls := histCalls + 1
         if !same then nSem := nSem + 1
-      | none => pure ()
+      | none =>
+        match logDelivery st rest hist with
+        | some (h', same) =>
+          hist := h'; nDeliv := nDeliv + 1; histDeliv := histDeliv + 1
+          if !same then nSem := nSem + 1
+        | none => pure ()
       let (st', out) := step st rest
       st := st'
       match impl with
@@ -127,14 +166,14 @@ def main (args : List String) : IO Unit := do
       | none => pure ()
     | _ => pure ()
     i := i + 1
-  if histOk then total := mergeLog total hist; nCounted := nCounted + histCalls
+  if histOk then total := mergeLog total hist; nCounted := nCounted + histCalls; nDelivCounted := nDelivCounted + histDeliv
   let table := MW.Lemmas.ApiBacked.classTable
   let row := fun (f : String) =>
     let e := (total.find? (fun x => x.1 == f)).getD (f, 0, 0)
     s!"  {jstr f}: \{\"class\": {jstr (classLetter (MW.Lemmas.ApiBacked.classOf f))}, \"reached\": {e.2.1}, \"held\": {e.2.2}}"
   let never := (table.filter (fun p => (total.find? (fun x => x.1 == p.1 && x.2.1 > 0)).isNone)).map (·.1)
   IO.println "{"
-  IO.println s!" \"ops\": {ops.length}, \"handler_runs\": {nCalls}, \"handler_runs_counted\": {nCounted}, \"compared_with_impl\": {impl.isSome}, \"lines_disagreeing\": {nDis}, \"runLog_vs_run_mismatch\": {nSem},"
+  IO.println s!" \"ops\": {ops.length}, \"handler_runs\": {nCalls}, \"handler_runs_counted\": {nCounted}, \"follower_runs\": {nDeliv}, \"follower_runs_counted\": {nDelivCounted}, \"compared_with_impl\": {impl.isSome}, \"lines_disagreeing\": {nDis}, \"runLog_vs_run_mismatch\": {nSem},"
   IO.println s!" \"callees_with_contract\": {table.length}, \"callees_exercised\": {table.length - never.length},"
   IO.println " \"contracts_exercised\": {"
   IO.println (",\n".intercalate (table.map (fun p => row p.1)))
